@@ -52,7 +52,8 @@ StepOK(pre, ev, post) ==
      /\ ok \/ threw                                         \* never a foreign exception
      /\ For("C10") => /\ PoolValid(post)
                       /\ (ok /\ c.op \in {"Move", "MoveAssign"} => MovedFromOK(pre[c.src], post[c.src]))
-     /\ For("C14") => /\ IF ok THEN Unchanged(pre, post, Others(pre, Targets(c))) ELSE post = pre
+                      /\ (ok => RvOK(pre, c, post))                    \* an operand given as an rvalue: untouched or moved-from
+     /\ For("C14") => /\ IF ok THEN Unchanged(pre, post, Others(pre, Targets(c))) /\ RvOK(pre, c, post) ELSE post = pre
                       /\ ev.alias = 0 /\ ev.heap_changed = 0
                       /\ \A k \in DOMAIN ev.rc : ev.rc[k][2] >= ev.rc[k][3]
                       /\ (ok /\ c.op \in {"Copy", "CopyAssign", "Move", "MoveAssign", "GetSupport", "GetGrid", "Destroy"} => TargetOK(pre, c, post))
